@@ -283,6 +283,11 @@ def maxabs(x):
     return float(x.abs().max()) if x.numel() else 0.0
 
 
+def over(x, bound):
+    """x > bound, with NaN counted as exceeding every bound (a factor containing NaN factorises nothing)"""
+    return not (x <= bound)
+
+
 def predicate(case, res, tol_direct=1e-8, tol_krylov=2e-4):
     """None if the observed result satisfies C06 for this query, else a short description.
     Only meaningful for kind == ok.  Direct methods: relative tolerance tol_direct; a Krylov-based path (any lanczos
@@ -307,10 +312,10 @@ def predicate(case, res, tol_direct=1e-8, tol_krylov=2e-4):
             return "factor shape %s, operator shape %s" % (list(Lf.shape), list(A.shape))
         up = bool(case.get("upper", False))
         tri = torch.triu(Lf) if up else torch.tril(Lf)
-        if maxabs(tri - Lf) > 0:
+        if over(maxabs(tri - Lf), 0):
             return "factor is not %s triangular" % ("upper" if up else "lower")
         P = Lf.mT @ Lf if up else Lf @ Lf.mT
-        if maxabs(P - A) > tol * scale:
+        if over(maxabs(P - A), tol * scale):
             return "%s differs from A by %.3g" % ("R^T R" if up else "L L^T", maxabs(P - A))
         return None
     def batch_ok(X):
@@ -326,7 +331,7 @@ def predicate(case, res, tol_direct=1e-8, tol_krylov=2e-4):
             return "root shape %s, operator shape %s" % (list(R.shape), list(A.shape))
         if krylov and not full_rank:
             return None
-        if maxabs(R @ R.mT - A) > tol * scale:
+        if over(maxabs(R @ R.mT - A), tol * scale):
             return "R R^T differs from A by %.3g" % maxabs(R @ R.mT - A)
         return None
     if op == "root_inv":
@@ -337,7 +342,7 @@ def predicate(case, res, tol_direct=1e-8, tol_krylov=2e-4):
             return None
         Ainv = torch.linalg.inv(A)
         sc = max(1.0, maxabs(Ainv))
-        if maxabs(R @ R.mT - Ainv) > tol * sc * max(1.0, float(torch.linalg.cond(A).max())):
+        if over(maxabs(R @ R.mT - Ainv), tol * sc * max(1.0, float(torch.linalg.cond(A).max()))):
             return "R R^T differs from A^-1 by %.3g" % maxabs(R @ R.mT - Ainv)
         return None
     if op in ("eigh", "t_eigh", "diag", "eigvalsh", "t_eigvalsh"):
@@ -347,7 +352,7 @@ def predicate(case, res, tol_direct=1e-8, tol_krylov=2e-4):
         if krylov and not full_rank:
             return None
         ref = torch.linalg.eigvalsh(A)
-        if maxabs(torch.sort(w, dim=-1)[0] - ref) > tol * scale:
+        if over(maxabs(torch.sort(w, dim=-1)[0] - ref), tol * scale):
             return "sorted spectrum differs from eigvalsh(A) by %.3g" % maxabs(torch.sort(w, dim=-1)[0] - ref)
         if op in ("eigvalsh", "t_eigvalsh"):
             return None
@@ -356,24 +361,24 @@ def predicate(case, res, tol_direct=1e-8, tol_krylov=2e-4):
             return "eigenvectors missing (None returned)"
         if list(Q.shape) != list(A.shape):
             return "eigenvector shape %s, operator shape %s" % (list(Q.shape), list(A.shape))
-        if maxabs(Q.mT @ Q - eye) > tol:
+        if over(maxabs(Q.mT @ Q - eye), tol):
             return "Q^T Q differs from I by %.3g" % maxabs(Q.mT @ Q - eye)
         rec = Q @ torch.diag_embed(w) @ Q.mT
-        if maxabs(rec - A) > tol * scale:
+        if over(maxabs(rec - A), tol * scale):
             return "Q diag(w) Q^T differs from A by %.3g" % maxabs(rec - A)
         return None
     if op in ("svd", "t_svd"):
         U, S, V = out["U"], out["S"], out["V"]
         if list(S.shape) != list(A.shape[:-1]):
             return "singular value shape %s, operator shape %s" % (list(S.shape), list(A.shape))
-        if float(S.min()) < 0:
+        if not (float(S.min()) >= 0):
             return "negative singular value %.3g" % float(S.min())
-        if maxabs(U.mT @ U - eye) > tol:
+        if over(maxabs(U.mT @ U - eye), tol):
             return "U^T U differs from I by %.3g" % maxabs(U.mT @ U - eye)
-        if maxabs(V.mT @ V - eye) > tol:
+        if over(maxabs(V.mT @ V - eye), tol):
             return "V^T V differs from I by %.3g" % maxabs(V.mT @ V - eye)
         rec = U @ torch.diag_embed(S) @ V.mT
-        if maxabs(rec - A) > tol * scale:
+        if over(maxabs(rec - A), tol * scale):
             return "U diag(S) V^T differs from A by %.3g" % maxabs(rec - A)
         return None
     raise ValueError(op)
